@@ -720,3 +720,94 @@ impl AdjacencyListWeighted<isize> {
         }
     @*/
 }
+
+// ---- C11 converse: same vertex set, contains v->u exactly when u->v is in A, weights carried over ----
+
+/// acc holds, at every head b, exactly the tails a < k of the arcs (a, b) of g, with their weights
+spec fn wm_conv_upto(g: AdjacencyListWeighted<isize>, acc: Seq<BTreeMap<usize, isize>>, k: int) -> bool {
+    &&& acc.len() == g.ord()
+    &&& forall|b: int, a: usize| 0 <= b < acc.len() ==> (#[trigger] acc[b]@.contains_key(a)) == (a < k && g.has(a as int, b))
+    &&& forall|b: int, a: usize| 0 <= b < acc.len() && #[trigger] acc[b]@.contains_key(a) ==> acc[b]@[a] == g.wt(a as int, b)
+}
+
+/// b is the key of one of the first idx items of a row iterator
+spec fn wm_seen(seq: Seq<(&usize, &isize)>, idx: int, b: int) -> bool {
+    exists|j: int| 0 <= j < idx && *(#[trigger] seq[j]).0 == b
+}
+
+/// ... and additionally the tail u for the heads among the first idx items of row u
+spec fn wm_conv_mid(g: AdjacencyListWeighted<isize>, acc: Seq<BTreeMap<usize, isize>>, u: int, seq: Seq<(&usize, &isize)>, idx: int) -> bool {
+    &&& acc.len() == g.ord()
+    &&& forall|b: int, a: usize| 0 <= b < acc.len() ==> (#[trigger] acc[b]@.contains_key(a)) == ((a < u && g.has(a as int, b)) || (a == u && wm_seen(seq, idx, b)))
+    &&& forall|b: int, a: usize| 0 <= b < acc.len() && #[trigger] acc[b]@.contains_key(a) ==> acc[b]@[a] == g.wt(a as int, b)
+}
+
+/// the items of the iterator over row u: exactly the entries of the row
+spec fn wm_row_items(g: AdjacencyListWeighted<isize>, u: int, seq: Seq<(&usize, &isize)>) -> bool {
+    &&& forall|i: int| 0 <= i < seq.len() ==> g.has(u, *(#[trigger] seq[i]).0 as int) && *seq[i].1 == g.wt(u, *seq[i].0 as int)
+    &&& forall|b: int| g.has(u, b) ==> wm_seen(seq, seq.len() as int, b)
+}
+
+impl AdjacencyListWeighted<isize> {
+    // `converse` at the instance W = isize (`impl<W: Copy>`; the row loop copies the weights)
+    /*@fn impl=AdjacencyListWeighted trait=Converse name=converse wrap=enumerate,fold props=C11,C13
+    requires
+        self.wf(),
+    ensures
+        r.wf(),
+        r.ord() == self.ord(),
+        forall|a: int, b: int| #![trigger r.has(a, b)] r.has(a, b) == self.has(b, a),
+        forall|a: int, b: int| #![trigger r.wt(a, b)] r.has(a, b) ==> r.wt(a, b) == self.wt(b, a),
+    @closure 1 |mut arcs: Vec<BTreeMap<usize, isize>>, p: (usize, &BTreeMap<usize, isize>)| -> (out: Vec<BTreeMap<usize, isize>>)
+    requires
+        p.0 < self.ord(),
+        *p.1 == self.arcs@[p.0 as int],
+        wm_conv_upto(*self, arcs@, p.0 as int),
+    ensures
+        wm_conv_upto(*self, out@, p.0 + 1),
+    @loop 1
+    invariant
+        self.wf(),
+        u < self.ord(),
+        *map == self.arcs@[u as int],
+        wm_row_items(*self, u as int, it1.seq()),
+        wm_conv_mid(*self, arcs@, u as int, it1.seq(), it1.index@),
+    @before `for (&v, &w) in map`
+        proof {
+            // the meaning of the row iterator's item sequence (assumed contract of `<&BTreeMap as IntoIterator>::into_iter`)
+            assert forall|seq: Seq<(&usize, &isize)>| (forall|i: int| 0 <= i < seq.len() ==> map@.contains_key(*(#[trigger] seq[i]).0) && map@[*seq[i].0] == *seq[i].1)
+                && (forall|k: usize| #[trigger] map@.contains_key(k) ==> seq.contains((&k, &map@[k]))) implies #[trigger] wm_row_items(*self, u as int, seq) by {
+                assert forall|b: int| self.has(u as int, b) implies wm_seen(seq, seq.len() as int, b) by {
+                    let k = b as usize;
+                    assert(map@.contains_key(k));
+                    let j = choose|j: int| 0 <= j < seq.len() && seq[j] == (&k, &map@[k]);
+                    assert(*seq[j].0 == b);
+                }
+            }
+            assert forall|seq: Seq<(&usize, &isize)>, b: int| !wm_seen(seq, 0, b) by {}
+        }
+    @loop_start 1
+        proof {
+            let j = it1.index@ as int;
+            assert(self.has(u as int, *it1.seq()[j].0 as int));
+            lemma_weighted_wf_has(*self);
+        }
+    @loop_end 1
+        proof {
+            let j = it1.index@ as int;
+            assert forall|b: int| wm_seen(it1.seq(), j + 1, b) == (wm_seen(it1.seq(), j, b) || b == v) by {
+                if wm_seen(it1.seq(), j, b) { let i = choose|i: int| 0 <= i < j && *(#[trigger] it1.seq()[i]).0 == b; assert(0 <= i < j + 1); }
+                if b == v { assert(*it1.seq()[j].0 == b); }
+                if wm_seen(it1.seq(), j + 1, b) { let i = choose|i: int| 0 <= i < j + 1 && *(#[trigger] it1.seq()[i]).0 == b; if i < j { assert(wm_seen(it1.seq(), j, b)); } }
+            }
+        }
+    @fn_start
+        proof {
+            assert(self.arcs@.len() == self.arcs.len());
+            let rem = self.arcs@.as_ref();
+            assert forall|a: int| 0 <= a < rem.len() implies *(#[trigger] rem[a]) == self.arcs@[a] by {}
+            // name the last but one accumulator of the fold chain
+            assert forall|accs: Seq<Vec<BTreeMap<usize, isize>>>| #![trigger accs.last()] accs.len() >= 2 ==> wm_see(accs[accs.len() - 2]) by {}
+        }
+    @*/
+}
